@@ -72,6 +72,14 @@ impl<C: CommentsParser> MdParser<C> {
 
             let mut html_comments = self.html_comments_parser.parse(html_block);
             for mut comment in &mut html_comments {
+                // Positions are relative to the html block: rows shift by the block's first row and
+                // columns on the block's first row by the column the block starts at.
+                if comment.position_range.start.line == 1 {
+                    comment.position_range.start.character += node.start_position().column;
+                }
+                if comment.position_range.end.line == 1 {
+                    comment.position_range.end.character += node.start_position().column;
+                }
                 comment.position_range.start.line += node.start_position().row;
                 comment.position_range.end.line += node.start_position().row;
                 comment.source_range.start += node.start_byte();
